@@ -178,7 +178,7 @@ def exc_matches(exc_obj, handler_cls):
 
 
 class Interp:
-    def __init__(self, repo_root, lib, contracts=None, feas_timeout_ms=400, max_paths=20000):
+    def __init__(self, repo_root, lib, contracts=None, feas_timeout_ms=60, max_paths=20000):
         self.repo_root = repo_root
         self.lib = lib                      # library models (lib.py)
         self.contracts = contracts or {}    # qualname key -> Contract
@@ -410,7 +410,7 @@ class Interp:
             yield st, t.val
             return
         ft = self.feasible(st, t)
-        ff = self.feasible(st, tm.Not(t))
+        ff = True if not ft else self.feasible(st, tm.Not(t))
         if ft and ff:
             st2 = st.fork()
             st.assume(t)
